@@ -15,5 +15,6 @@ func init() {
 }
 
 func runC01(c *fw.Ctx) {
+	r11(c)
 	r14(c)
 }
